@@ -48,7 +48,10 @@ man = {
     'checks': checks,
     'not_applicable': na,
     'notes': 'All checks run the unmodified sources of /repo on symbolic inputs; see DESIGN.md. Exit 0 = all obligations discharged on all explored paths '
-             '(inconclusive items are printed and recorded), exit 1 = concretely reproduced violation, exit 3 = harness error.',
+             '(inconclusive items are printed and recorded), exit 1 = concretely reproduced violation (line VIOLATION property=<id> replay=<path>; '
+             './vcheck replay <path> re-runs it on the real code), exit 3 = harness error. Findings: known_findings.txt (six fixed: lines, no known: line; never written at '
+             'run time). Harnesses named as concrete companions in the claim texts enumerate listed values the solver cannot produce (NaN, numpy scalar types, '
+             'doubles that underflow, LAPACK-backed modes); what they establish is those listed cases. Seeded changes used to evaluate the checks: seeded/ and DESIGN.md 8.6.',
 }
 json.dump(man, open(os.path.join(HERE, 'MANIFEST.json'), 'w'), indent=1)
 print('MANIFEST: %d checks, %d not_applicable' % (len(checks), len(na)))
